@@ -69,4 +69,22 @@ var plans = map[string]Plan{
 			{Name: "random", Pkg: "./checks/c02", Run: "^TestRandom$", Rapid: true, Shards: [2]int{8, 16}, Checks: [2]int{4000, 40000}},
 		},
 	},
+	"C03": {
+		Level: "exploration",
+		Rule: "cases are (bytes, requested wire type, read segmentation): uniform random bytes; grammar-aware mutations (length/count edits incl. -1, -2^31, 2^31-1, true+-1; type-byte swaps; bool bytes; field ids; truncation; bit flips; insert/delete) of reference encodings of random trees; every prefix of valid encodings; deep-nesting probes in child processes. " +
+			"Oracle: no panic, no hang (20s watchdog, re-tried), decode+force success => re-encoding == consumed prefix (both readers) and Skip consumes exactly the same (seekable and non-seekable). " +
+			"Non-trivial: the input decodes to a tree with a non-empty container, or a length/count/type byte was edited. Distinct: SHA-256 of (input, type).",
+		Assumptions: []string{
+			"internal/bridge's schema-less stream walker is a legitimate caller of stream.Reader (it rejects unknown type codes itself)",
+			"a 20 s watchdog (x3 retries) on <=64 KiB inputs stands in for 'never hangs'",
+			"deep-nesting probe: a child process dying with 'stack overflow' is the observation; depths 2^12..2^22",
+		},
+		Units: []Unit{
+			{Name: "random-bytes", Pkg: "./checks/c03", Run: "^TestRandomBytes$", Rapid: true, Shards: [2]int{4, 8}, Checks: [2]int{10000, 80000}},
+			{Name: "mutated", Pkg: "./checks/c03", Run: "^TestMutated$", Rapid: true, Shards: [2]int{8, 16}, Checks: [2]int{10000, 60000}},
+			{Name: "truncate-all", Pkg: "./checks/c03", Run: "^TestTruncateEverywhere$", Rapid: true, Shards: [2]int{2, 8}, Checks: [2]int{500, 3000}},
+			{Name: "deep-nesting", Pkg: "./checks/c03", Run: "^TestDeepNesting$", Shards: [2]int{1, 1}, Weight: 4},
+			{Name: "fuzz", Pkg: "./checks/c03", Fuzz: "FuzzReadValue", Shards: [2]int{0, 1}, FuzzTime: [2]time.Duration{0, 120 * time.Second}, Weight: 16},
+		},
+	},
 }
